@@ -91,9 +91,13 @@ theorem gap_ge_backoff (bo : Backoffs) (script : List Att) (t : Int) (j : Nat) (
   have := gap_ge_backoff_from bo script 0 t j tj tj' a h0 h1 ha
   simpa using this
 
-theorem verdict_429 (r : Resp) (h : r.status = 429) :
+theorem verdict_429 (r : Resp) (h : r.status = 429) (hb : r.hdrBad = false) :
     verdict (.http r) = .retry .tooMany (retryAfter r) := by
-  simp [verdict, raises, classify, retryable, h]
+  simp [verdict, raises, classify, retryable, h, hb]
+
+theorem verdict_429_bad (r : Resp) (h : r.status = 429) (hb : r.hdrBad = true) :
+    verdict (.http r) = .raise .other := by
+  simp [verdict, raises, classify, retryable, h, hb]
 
 /-- After a 429 that asks for `Retry-After` (header or `details.retryAfterSeconds`), the next
     attempt — whenever there is one — starts no earlier than that, whatever the backoff and
@@ -124,7 +128,10 @@ theorem gap_ge_retry_after_from (bo : Backoffs) (enforce : Bool) (script : List 
           rw [htl] at h1
           simp at h1
           subst ha h0
-          rw [hf, verdict_429 r h429, hra] at hv
+          cases hbad : r.hdrBad with
+          | true => rw [hf, verdict_429_bad r h429 hbad] at hv; cases hv
+          | false => ?_
+          rw [hf, verdict_429 r h429 hbad, hra] at hv
           injection hv with _ hra'
           subst hra'
           have := slept_ge (effDelay enforce (some ra) b)
@@ -269,44 +276,67 @@ theorem transient_retried_then_escalates (l : List Int) (enforce : Bool) (script
   have := transient_retried_from l enforce script 0 t (by omega) ht
   simpa [request] using this
 
-/-- which faults are transient: exactly network errors, time-outs, 5xx, 403 and 429 -/
+/-- which HTTP responses are transient: exactly 5xx, 403 and 429 — except (finding F1) a 429 whose
+    Retry-After header is not a number -/
 theorem transient_http_iff (r : Resp) :
     (∃ c ra, verdict (.http r) = .retry c ra) ↔
-      (r.status = 403 ∨ r.status = 429 ∨ (500 ≤ r.status ∧ r.status < 600)) := by
+      ((r.status = 403 ∨ r.status = 429 ∨ (500 ≤ r.status ∧ r.status < 600)) ∧
+       ¬ (r.status = 429 ∧ r.hdrBad = true)) := by
   constructor
   · rintro ⟨c, ra, h⟩
-    unfold verdict raises at h
-    by_cases h4 : 400 ≤ r.status
-    · simp only [h4, decide_true, if_true] at h
-      by_cases hr : retryable (classify r.status) = true
-      · unfold classify at hr
-        repeat' split at hr
-        all_goals first | omega | (simp [retryable] at hr)
-      · simp [hr] at h
-    · simp [h4] at h
-  · intro h
+    constructor
+    · unfold verdict raises at h
+      by_cases h4 : 400 ≤ r.status
+      · simp only [h4, decide_true, if_true] at h
+        by_cases hr : retryable (classify r.status) = true
+        · unfold classify at hr
+          repeat' split at hr
+          all_goals first | omega | (simp [retryable] at hr)
+        · simp [hr] at h
+      · simp [h4] at h
+    · rintro ⟨h429, hbad⟩
+      rw [verdict_429_bad r h429 hbad] at h; cases h
+  · rintro ⟨h, hnb⟩
     have h4 : raises r.status = true := by simp [raises]; omega
     have hr : retryable (classify r.status) = true := by
       unfold classify
       repeat' split
       all_goals first | rfl | omega
+    have hb : (decide (classify r.status = ErrClass.tooMany) && r.hdrBad) = false := by
+      cases hbad : r.hdrBad with
+      | false => simp
+      | true =>
+        have : r.status ≠ 429 := fun e => hnb ⟨e, hbad⟩
+        have : classify r.status ≠ .tooMany := by
+          unfold classify
+          repeat' split
+          all_goals first | omega | simp
+        simp [this]
     exact ⟨classify r.status, if classify r.status = ErrClass.tooMany then retryAfter r else none,
-      by simp only [verdict, h4, hr, if_true]⟩
+      by simp only [verdict, h4, hr, if_true, hb]; simp⟩
+
+/-- Finding F1 (the clause "429 is retried" is false for one legal header form): a 429 whose
+    `Retry-After` is an HTTP-date makes `int(float(..))` raise ValueError inside the retry handler;
+    the request fails at once with that foreign error, whatever backoffs are left. -/
+theorem retry_after_http_date_witness (bo : Backoffs) (enforce : Bool) (rest : List Att) (t : Int)
+    (r : Resp) (lat : Nat) (h429 : r.status = 429) (hbad : r.hdrBad = true) :
+    request bo enforce (⟨.http r, lat⟩ :: rest) t = ⟨[t], [], .escalated .other, t + lat⟩ := by
+  simp [request, run_cons, verdict_429_bad r h429 hbad]
 
 -- non-vacuity: concrete scripts that meet the hypotheses, evaluated by the model
 example : (request (ofList [1024, 512]) false
-    [⟨.http ⟨500, none, .empty, none⟩, 256⟩, ⟨.http ⟨429, some 3072, .empty, none⟩, 0⟩,
-     ⟨.exc true false false false false, 128⟩, ⟨.http ⟨503, none, .empty, none⟩, 0⟩] 0)
+    [⟨.http ⟨500, none, false, .empty, none⟩, 256⟩, ⟨.http ⟨429, some 3072, false, .empty, none⟩, 0⟩,
+     ⟨.exc true false false false false, 128⟩, ⟨.http ⟨503, none, false, .empty, none⟩, 0⟩] 0)
     = ⟨[0, 1280, 4352], [1024, 3072], .escalated .conn, 4480⟩ := by decide
-example : (request (ofList [1024]) true [⟨.http ⟨429, none, .statusJson, some 2048⟩, 0⟩] 0).times = [0, 2048] := by decide
+example : (request (ofList [1024]) true [⟨.http ⟨429, none, false, .statusJson, some 2048⟩, 0⟩] 0).times = [0, 2048] := by decide
 example : Fatal4xx 404 ∧ Fatal4xx 401 ∧ Fatal4xx 422 := by unfold Fatal4xx; omega
-example : AllTransient [⟨.http ⟨403, none, .empty, none⟩, 0⟩, ⟨.exc false true false false false, 3⟩] := by
+example : AllTransient [⟨.http ⟨403, none, false, .empty, none⟩, 0⟩, ⟨.exc false true false false false, 3⟩] := by
   intro a ha; simp at ha; rcases ha with rfl | rfl
   · exact ⟨.forbidden, none, by decide⟩
   · exact ⟨.timeout, none, by decide⟩
-example : retryAfter ⟨429, some 2560, .text, none⟩ = some 2048 := by decide   -- "2.5" → int(float()) = 2 s
-example : retryAfter ⟨429, none, .statusJson, some 0⟩ = none := by decide      -- retryAfterSeconds: 0 is falsy
-example : retryAfter ⟨429, some 0, .statusJson, some 5120⟩ = some 0 := by decide -- header "0" is truthy
+example : retryAfter ⟨429, some 2560, false, .text, none⟩ = some 2048 := by decide   -- "2.5" → int(float()) = 2 s
+example : retryAfter ⟨429, none, false, .statusJson, some 0⟩ = none := by decide      -- retryAfterSeconds: 0 is falsy
+example : retryAfter ⟨429, some 0, false, .statusJson, some 5120⟩ = some 0 := by decide -- header "0" is truthy
 
 /-! ## `throttled` — for every delay configuration, every sequence of cycle outcomes -/
 
